@@ -234,3 +234,11 @@ def streams(ctx):
     cases = gen_cases("simstep", ["prep", n], ctx.seed)
     md, sd = correspond(ctx, "prepare-installs", cases, prep_nontrivial)
     settle(ctx, md, sd)
+
+
+# FINAL ROUND (work package wp17): T07.4 with prepare_eval explicit at the real builtins
+# (failed_eval_equivalent_later_installs_listExt, Lemmas/ListExtC07.lean, is in LISTEXT["C07"]); its non-vacuity
+# instance lives in Lemmas/ListExtSession.lean, hence the module
+MODULE = (MODULE if isinstance(MODULE, list) else [MODULE]) + [_pv8.LISTEXT_SESSION_MODULE]
+THEOREMS = THEOREMS + [t for t in _pv8.listext_session("C07") if t not in THEOREMS]
+META["note"] = META["note"] + _pv8.LISTEXT_SESSION_NOTE_C07
